@@ -108,7 +108,7 @@ REGISTRY = {
                             "caller-added list outwards; only total adaptors may occur on that path (R16.1, with a positive "
                             "fixture); set_header pushes exactly when both conversions succeed (R16.2); order (R16.3 = R02.6); "
                             "capacity constant (R16.4)."),
-    "C18": dict(modules=["rules_c18"], min_instances=5, trusted_base=TB,
+    "C18": dict(modules=["rules_c18"], min_instances=12, trusted_base=TB,
                 explanation="Narrow structural part: E4 table of the public wrapper over the writer mode (R18.1) and compile-time "
                             "constant coherence (R18.2). The for-all-n fit, <= n and monotonicity are NOT decided (arithmetic over "
                             "run-time lengths)."),
@@ -156,13 +156,16 @@ MANIFEST_META = {
                    "F4 showed one such axiom false, which is why foreign Results are never unwrapped). Reviewed sites are "
                    "counted in the evidence as reviewed, not proven."),
     "C18": dict(
-        technique="abstract interpretation of the wrapper + compile-time constant coherence (partial: necessary conditions only)",
+        technique="abstract interpretation of the closed form into piecewise-affine pieces + schema match of the chunk writer "
+                  "(E4 terms, E6 emission template) + side conditions of an induction on chunks evaluated on constants",
         design_ref="DESIGN.md section 4 C18",
-        level_text="PARTIAL: decides only that the wrapper returns n for length-delimited bodies and the closed form for chunked "
-                   "ones, and that the constants the closed form and the chunk writer use are coherent. Each is a necessary "
-                   "condition of the property; the property itself (for every n the advertised input fits, <= n, monotone) is "
-                   "arithmetic over run-time values and is not decided by static analysis.",
-        level_note="The core for-all-n claim is not claimed; see DESIGN.md section 4 C18/C19."),
+        level_text="Decides the statement for every n by an induction whose premises are checked on the source: the closed form is "
+                   "piecewise affine in (n div A, n mod A) with g(n) <= n and no decrease (slopes, break points, wrap); the chunk "
+                   "writer has the shape length = min(input, max chunk, room - reserve), minimal-hex size line, continues exactly "
+                   "while input remains, loop left only by the writer's own false; side conditions S1-S5 relate reserve, literal "
+                   "overhead, hex digits of the max chunk and the pieces; the sized writer consumes exactly min(room, input, remaining).",
+        level_note="Axioms: std hex formatting prints hexdigits(v) characters, a cursor write succeeds iff it fits. A writer of a "
+                   "different design than the schema is reported INCOMPLETE (undecidable for this checker), never passed."),
     "C16": dict(
         technique="iterator-adaptor dataflow over the abstract value of the effective header iterator + event rules",
         design_ref="DESIGN.md section 4 C16",
